@@ -1094,9 +1094,21 @@ class Env:
                 elif type(v).__module__.startswith("synced_collections") and hasattr(v, "__dict__") and not isinstance(v, type):
                     entry[k] = ("obj", (v, {a: (copy.copy(b) if isinstance(b, (list, dict, set)) else b) for a, b in v.__dict__.items()}))
             snap[c] = entry
+        self._class_names = {c: set(c.__dict__) for c in snap}
         self._class_snap = snap
 
     def _restore_classes(self, real_locks=False):
+        # drop class attributes created since the snapshot (e.g. a per-class
+        # _BUFFER_CAPACITY written by set_buffer_capacity)
+        for c, names in self._class_names.items():
+            for k in list(c.__dict__):
+                if k not in names and not k.startswith("__") and k not in ("_abc_impl",):
+                    v = c.__dict__[k]
+                    if isinstance(v, (int, float, bool, dict, list, set)) or v is None:
+                        try:
+                            delattr(c, k)
+                        except Exception:
+                            pass
         for c, entry in self._class_snap.items():
             want = entry.get("_threading_support_is_active")
             if want is not None and c.__dict__.get("_threading_support_is_active") != want[1]:
